@@ -221,7 +221,10 @@ where
         match &remote_idle_timeout {
             Some(0) | None => self.heartbeat = HeartBeat::never(),
             Some(millis) => {
-                let period = Duration::from_millis(*millis as u64);
+                // Empty frames are sent at half of the remote idle time-out so that no interval
+                // of that length passes without a frame
+                let half = *millis as u64 / 2;
+                let period = Duration::from_millis(if half == 0 { 1 } else { half });
                 self.heartbeat = HeartBeat::new(period);
             }
         };
@@ -341,7 +344,10 @@ where
                     // A zero idle-time-out means that the peer does not time out
                     Some(0) | None => self.heartbeat = HeartBeat::never(),
                     Some(millis) => {
-                        let period = Duration::from_millis(*millis as u64);
+                        // Empty frames are sent at half of the remote idle time-out so that no
+                        // interval of that length passes without a frame
+                        let half = *millis as u64 / 2;
+                        let period = Duration::from_millis(if half == 0 { 1 } else { half });
                         self.heartbeat = HeartBeat::new(period);
                     }
                 };
